@@ -68,6 +68,8 @@ def overlay(ctx):
       raise AnalysisError('_get_bindings: store read is not inside a loop over scope prefixes')
     lp = loops[-1]
     P = u(lp.target)
+    if index_form(ctx, f, g, facts, lp, kd, st, inst, con):
+      continue
     join_ok = kd is not None and kd.replace(' ', '') == "'/'.join(%s)" % P
     ctx.check(join_ok, 'C01.overlay', con, "the scope key is '/'.join(prefix)",
               "the scope key is `%s`, not '/'.join(<prefix>)" % kd, f.loc(st), instance=inst + ':key')
@@ -110,6 +112,80 @@ def overlay(ctx):
                 'the scope levels applied are `%s`: %s' % (u(val), why), f.loc(n.ast), instance='prefixes')
     if not seen_inherit:
       ctx.fail('C01.overlay', con, 'no branch builds the inherited prefix list', f.loc(), instance='prefixes')
+
+
+def index_form(ctx, f, g, facts, lp, kd, st, inst, con):
+  """The equivalent index form  `for i in range(LO, HI): key = '/'.join(SC[:i])`.
+  Returns False if the loop is not of this form."""
+  if not (isinstance(lp.target, ast.Name) and isinstance(lp.iter, ast.Call) and u(lp.iter.func) == 'range' and kd):
+    return False
+  try:
+    k = ast.parse(kd, mode='eval').body
+  except SyntaxError:
+    return False
+  i = lp.target.id
+  if not (isinstance(k, ast.Call) and u(k.func) == "'/'.join" and len(k.args) == 1 and isinstance(k.args[0], ast.Subscript)
+          and isinstance(k.args[0].slice, ast.Slice)):
+    return False
+  sub = k.args[0]
+  SC = u(sub.value)
+  sl = sub.slice
+  lpn = [x for x in g.live_nodes() if x.kind == 'for' and x.ast is lp][0]
+  fs = facts[lpn.id]
+  scd = def_of(fs, SC) or ''
+  ok = 'current_scope()' in scd and ' or ' in scd
+  ctx.check(ok, 'C01.fresh', con, 'an omitted scope falls back to current_scope() evaluated at call time',
+            'an omitted scope no longer falls back to the scope active at the time of the call', f.loc(), instance='current-scope')
+  pref_ok = (sl.lower is None or u(sl.lower) == '0') and sl.step is None and sl.upper is not None and u(sl.upper) == i
+  ctx.check(pref_ok, 'C01.overlay', con, "the scope key is '/'.join(<prefix of length i>)",
+            "the scope key is `%s`, not '/'.join of a prefix of the active scope" % kd, f.loc(st), instance=inst + ':key')
+
+  def lin(e, mode, depth=0):
+    if depth > 4:
+      return None
+    if isinstance(e, ast.Constant) and isinstance(e.value, int) and not isinstance(e.value, bool):
+      return (0, e.value)
+    if isinstance(e, ast.Call) and u(e.func) == 'len' and len(e.args) == 1 and u(e.args[0]) == SC:
+      return (1, 0)
+    if isinstance(e, ast.BinOp) and isinstance(e.op, (ast.Add, ast.Sub)):
+      a, b = lin(e.left, mode, depth + 1), lin(e.right, mode, depth + 1)
+      if a is None or b is None:
+        return None
+      sgn = 1 if isinstance(e.op, ast.Add) else -1
+      return (a[0] + sgn * b[0], a[1] + sgn * b[1])
+    if isinstance(e, ast.IfExp):
+      t = u(e.test)
+      if t == 'inherit_scopes':
+        return lin(e.body if mode else e.orelse, mode, depth + 1)
+      if t == 'not inherit_scopes':
+        return lin(e.orelse if mode else e.body, mode, depth + 1)
+      return None
+    if isinstance(e, ast.Name):
+      d = def_of(fs, e.id)
+      if d is None:
+        return None
+      try:
+        return lin(ast.parse(d, mode='eval').body, mode, depth + 1)
+      except SyntaxError:
+        return None
+    return None
+  args = lp.iter.args
+  for mode, name, want_lo in ((True, 'prefixes', (0, 0)), (False, 'strict', (1, 0))):
+    lo = (0, 0) if len(args) == 1 else lin(args[0], mode)
+    hi = lin(args[0] if len(args) == 1 else args[1], mode)
+    step = (0, 1) if len(args) < 3 else lin(args[2], mode)
+    if lo is None or hi is None or step is None:
+      raise AnalysisError('_get_bindings: range bounds `%s` are not a form this rule can interpret' % u(lp.iter))
+    ok = lo == want_lo and hi == (1, 1) and step == (0, 1)
+    if mode:
+      ctx.check(ok, 'C01.overlay', con,
+                'scope prefixes %s[:0] .. %s[:len] in ascending order: root first, every prefix, full scope last' % (SC, SC),
+                'the scope levels applied are the prefixes of length `%s`: not exactly 0..len(%s) ascending' % (u(lp.iter), SC),
+                f.loc(lp), instance=name)
+    else:
+      ctx.check(ok, 'C01.overlay', con, 'strict mode reads exactly the given scope',
+                'strict (inherit_scopes=False) mode reads the prefixes of length `%s`' % u(lp.iter), f.loc(lp), instance=name)
+  return True
 
 
 def prefix_form(val, SC):
